@@ -103,6 +103,17 @@ def run(ctx):
             seen.add(cs)
             samples.append(sample("128_72", m, impolite=len(seen) % 2 == 0))
     ctx.note("cs5_values_covered", len(seen))
+    # structured fill: constant messages and messages with one constant row of the transmit matrix (12 / 11 message bits)
+    for width, kind_, rowlen in ((28, "68_28", 12), (72, "128_72", 11)):
+        for base in (0, 1):
+            samples.append(sample(kind_, bitarray([base] * width)))
+            for start in range(0, width, rowlen):
+                m = bitarray([1 - base] * width)
+                m[start:start + rowlen] = base
+                samples.append(sample(kind_, m))
+                m2 = bitarray([rng.getrandbits(1) for _ in range(width)])
+                m2[start:start + rowlen] = base
+                samples.append(sample(kind_, m2))
     for i in range(28):
         u = bitarray([0] * 28)
         u[i] = 1
